@@ -1,5 +1,6 @@
 """C18 — every core operation is an interceptable request; pass-through changes nothing; a substituted
 result for one dataset is honoured wherever that dataset is used."""
+import contextlib
 import copy
 import inspect
 import logging
@@ -199,9 +200,12 @@ class C18(HistoryProperty):
             elif x < 0.65 or not (subst and targets):
                 op["mode"] = "pass"
                 op["only"] = None if rng.random() < 0.5 else [rng.choice(list(CORE) + list(OTHER))]
+                # labrea's own derived runtimes entered INSIDE the handler block must still carry the handlers
+                op["inner_ctx"] = rng.choice([None, None, "cache", "logging", "both"])
             else:
                 op["mode"] = "subst"
                 op["target"] = rng.choice(targets)
+                op["subst_in_disabled"] = rng.random() < 0.3
                 op["op"] = "evaluate"
         return {"cfg": cfg, "spec": spec, "ops": ops, "subst": subst}
 
@@ -240,7 +244,11 @@ class C18(HistoryProperty):
                         did_subst = True
                         continue
                     b0, r0 = len(w.log.events), len(ref.log.events)
-                    rout = self._do(ref, op, copy.deepcopy(op["o"]))
+                    inner = {"cache": [labrea.cache.disabled], "logging": [labrea.logging.disabled], "both": [labrea.logging.disabled, labrea.cache.disabled]}.get(op.get("inner_ctx"), [])
+                    with contextlib.ExitStack() as st:
+                        for c in inner:
+                            st.enter_context(c())
+                        rout = self._do(ref, op, copy.deepcopy(op["o"]))
                     if mode == "pass":
                         did_pass = True
                         mon.violation = None
@@ -249,7 +257,10 @@ class C18(HistoryProperty):
                             if op.get("only") is None:
                                 sys.setprofile(mon.profile)
                             try:
-                                out = self._do(w, op, o)
+                                with contextlib.ExitStack() as st:
+                                    for c in inner:
+                                        st.enter_context(c())
+                                    out = self._do(w, op, o)
                             finally:
                                 sys.setprofile(None)
                         mon.active = False
@@ -332,7 +343,8 @@ class C18(HistoryProperty):
             return ltypes._evaluate_request(request)
 
         with lrt.handle(ltypes.EvaluateRequest, h):
-            out = self._do(w, {"op": "evaluate", "node": op["node"], "o": op["o"]}, o)
+            with (labrea.cache.disabled() if op.get("subst_in_disabled") else contextlib.nullcontext()):
+                out = self._do(w, {"op": "evaluate", "node": op["node"], "o": op["o"]}, o)
         tspec = copy.deepcopy(spec)
         for k, n in enumerate(tspec["nodes"]):
             if n["id"] == tid:
